@@ -79,6 +79,9 @@ def run(ctx, rep):
     from props import _viewread
     _viewread.run(F, rep, "C01.view-read")
     blank_return(F, rep)
+    # an operand the folder drops is a statement's worth of output / a failure that never happens (`probe() || true`)
+    from props import C15 as _c15
+    _c15.fold_keeps_operands(F, rep, rule="C01.fold-keeps-operands")
 
 
 
